@@ -61,7 +61,7 @@ class MPSWorld(World):
     NAME = "mps"
     LEVEL = "exploration"
     SIM_TIME_UNIT = "operations"
-    RUNS = {"quick": 8000, "thorough": 400000}
+    RUNS = {"quick": 16000, "thorough": 600000}
     WALL_CAP = {"quick": 900, "thorough": 3300}
     RULE = (
         "one run = one MPS (L 2-6, site-dependent physical dims 2-3, bond <= 4, "
